@@ -64,7 +64,7 @@ CHECKS = {
          "Worker configuration {trigger met, not met, merge never} x {no sync task, interval sync} x drop placed before tick 1..3 while the worker sleeps an hour (virtual) before its next timer, while it is held at each hook gate, and while a background merge or sync is held at EVERY hook point inside it; the sleeping-worker drops are repeated with every file-system call issued by the dropping thread failing (EIO). Relative to the moment the drop returned: every operation on a retained handle fails with 'closed', the old instance issues no mutating system call, the worker thread is gone within 2 s real time, the directory re-opens at once and reads as the map model immediately, after the old operation completed and after a further re-open; 2|20 open/close cycles leave thread and descriptor counts unchanged.",
          "Gate positions are hook points (before each lock acquisition / loop iteration), not every instruction; 'promptly' = 2 s real time.", "DESIGN.md §5 E6, §6 C17"),
  "C18": ("e6 vtime", "model_checking", "exhaustive configuration grid of the background worker executed in virtual time (interposed clock_gettime / epoll_wait), worker held at every tick, reference trigger predicate",
-         "Policy {never, always, window in, window out} x trigger crossing {none, dead bytes, fragmentation, both} placed at tick k in 1..3 x check interval {1 ms .. 1 h} x jitter {0, 0.3, 1} x sync {none, always, interval}, horizon 5|10 ticks (1 413 | ~1 900 configurations): at every tick the spacing lies in interval*(1 +- jitter), can_merge() equals a reference predicate on the counters, a merge starts at exactly the first tick where predicate and policy allow and at no other, never under 'never' / outside the window; interval sync keeps consecutive fsyncs at most one interval apart and stops after the drop.",
+         "Policy {never, always, window in, window out} x trigger crossing {none, dead bytes, fragmentation, both} placed at tick k in 1..3 x check interval {1 ms .. 1 h} x jitter {0, 0.3, 1} x sync {none, always, interval}, horizon 5|10 ticks (1 413 | ~1 900 configurations): at every tick the spacing lies in interval*(1 +- jitter), can_merge() equals a reference predicate on the counters, a merge starts at exactly the first tick where predicate and policy allow and at no other, never under 'never' / outside the window; a background fsync that fails (the 1st, 2nd or 3rd, EIO) is followed by further syncs and the sync task on its own keeps syncing; interval sync keeps consecutive fsyncs at most one interval apart and stops after the drop.",
          "Virtual time trusts clock_gettime/epoll_wait to be the worker's only time sources; jitter samples observed not enumerated; real-time scheduling latency not measured.", "DESIGN.md §5 E6, §6 C18"),
 }
 
